@@ -17,6 +17,7 @@ type famSpec struct {
 	Variants func(v string) bool // which variants this family runs on
 	Cfg      func(r *rand.Rand, tier string, v string) []config
 	AllCfg   bool // run on all 81 configurations even in the quick tier
+	MinMax   bool // quick tier: the least and the most parallel configuration of each variant instead of a random one and the most parallel
 }
 
 type diffProp struct {
@@ -89,6 +90,21 @@ func (p *diffProp) RunCase(tier string, seed int64, idx int) caseResult {
 		ct = "thorough"
 	}
 	cfgs := sampleConfigs(r, ct, f.Variants)
+	if f.MinMax && ct != "thorough" {
+		// the single-unit / single-core configuration isolates the memory hierarchy from the known
+		// cross-unit findings (they carry minpar=2), so a cache defect is reported there directly
+		cfgs = nil
+		for _, v := range variantNames {
+			if f.Variants != nil && !f.Variants(v) {
+				continue
+			}
+			cs := configsOf(v)
+			cfgs = append(cfgs, cs[0])
+			if len(cs) > 1 {
+				cfgs = append(cfgs, cs[len(cs)-1])
+			}
+		}
+	}
 	o := f.Opts
 	o.Prop = p.id
 	if tier == "thorough" && o.Repeats > 1 {
@@ -216,7 +232,7 @@ func init() {
 	register(&diffProp{
 		id: "C05",
 		fams: []famSpec{
-			{Name: "memwalk", Quick: 300, Thorough: 4000, Gen: famMemwalk, Opts: ls, Variants: cached},
+			{Name: "memwalk", Quick: 300, Thorough: 4000, Gen: famMemwalk, Opts: ls, Variants: cached, MinMax: true},
 		},
 		rule:   "family 'memwalk': 8-16 KB memories, strided walking loops (strides 4..260, up to 65 iterations), ping-pong over 17-24 lines, store/evict/reload, random accesses at every line-relative offset, byte/half/word mix, XOR checksum of every loaded value. Oracle: value returned by each load (lockstep) + final memory + final registers.",
 		assume: []string{diffAssume},
